@@ -315,6 +315,11 @@ def run_async(case, max_steps=400):
                         # -k: the same virtual instant, but k turns of the event loop later
                         for _ in range(int(-gap)):
                             await asyncio.sleep(0)
+                    if e == '!disconnect':
+                        # a graph edit placed in the producer's timeline: v = [upstream id, downstream id]
+                        log.add('EDIT', 'disconnect', v[0], v[1])
+                        S[v[0]].disconnect(S[v[1]])
+                        continue
                     i = counter['i']
                     counter['i'] += 1
                     x = tuple(v) if isinstance(v, list) else v
